@@ -291,7 +291,8 @@ theorem return_shape {ρ : Type} (m : Method) (replies : List ρ) :
 theorem issued_iff (fl : Flavor) (m : Method) :
     issued fl m = false ↔
       (fl = .async ∧ isVoid m = true ∧ (m.serverStreaming = true ∨ m.clientStreaming = true)) := by
-  cases fl <;> simp [issued]
+  cases fl <;> cases hv : isVoid m <;> cases hs : m.serverStreaming <;> cases hc : m.clientStreaming <;>
+    simp [issued, hv, hs, hc]
 
 /-! ## The composite statement -/
 
